@@ -46,8 +46,10 @@ Section LastInstrument.
   (* ---------------------------------------------------------------- Observe on a gauge *)
   Lemma obs_last : forall w step, 0 < step -> forall cbs clk S,
     (forall a x, st_cum S a = Some x -> a_ts x <= clk) ->
+    (forall a x, st_delta S a = Some x -> a_ts x <= clk) ->
     st_unrep (obs_i c i w cbs clk step S) = st_unrep S /\ st_last (obs_i c i w cbs clk step S) = st_last S /\
     (forall a x, st_cum (obs_i c i w cbs clk step S) a = Some x -> a_ts x <= clk + step * Z.of_nat (length cbs)) /\
+    (forall a x, st_delta (obs_i c i w cbs clk step S) a = Some x -> a_ts x <= clk + step * Z.of_nat (length cbs)) /\
     forall a, In a attrs ->
       match last_report (reports cbs w i) a with
       | Some v => exists t, clk < t <= clk + step * Z.of_nat (length cbs) /\
@@ -55,33 +57,48 @@ Section LastInstrument.
       | None => st_delta (obs_i c i w cbs clk step S) a = st_delta S a
       end.
   Proof.
-    intros w step Hstep. induction cbs as [|[[j f] s] cbs IH]; intros clk S Hb.
-    - cbn [obs_i reports flat_map last_report length]. split; [reflexivity|split; [reflexivity|split]].
+    intros w step Hstep. induction cbs as [|[[j f] s] cbs IH]; intros clk S Hb Hbd.
+    - cbn [obs_i reports flat_map last_report length]. split; [reflexivity|split; [reflexivity|split; [|split]]].
       + intros a x H. specialize (Hb a x H). lia.
+      + intros a x H. specialize (Hbd a x H). lia.
       + intros a _. reflexivity.
     - cbn [obs_i length]. rewrite reports_cons. cbn [fst snd].
       assert (Hlen : clk + step + step * Z.of_nat (length cbs) = clk + step * Z.of_nat (Datatypes.S (length cbs))) by lia.
       destruct (Nat.eqb j i) eqn:Ej.
       + set (S1 := record (kind_of c i) (clk + step) (w s) S).
+        assert (Hnew : forall a v, w s a = Some v -> st_delta S1 a = Some (mk_agg v (clk + step) true)).
+        { intros a v Ew. unfold S1. cbn [record st_delta]. rewrite Ew. fold k. rewrite (agg_new_last k Hk). f_equal.
+          destruct (st_cum S a) as [prev|] eqn:Ep; [|reflexivity].
+          assert (Hd : diff k prev (mk_agg v (clk + step) true) = mk_agg v (clk + step) true).
+          { rewrite (diff_last k Hk). unfold lv_later. specialize (Hb a prev Ep). cbn [a_ts].
+            destruct (a_ts prev >? clk + step) eqn:E; [lia|reflexivity]. }
+          rewrite Hd. destruct (st_delta S a) as [p|] eqn:Epd; [|reflexivity].
+          unfold merge. rewrite Hk. unfold lv_later. specialize (Hbd a p Epd). cbn [a_ts].
+          destruct (a_ts p >? clk + step) eqn:E; [lia|reflexivity]. }
         assert (Hb1 : forall a x, st_cum S1 a = Some x -> a_ts x <= clk + step).
         { intros a x. unfold S1. cbn [record st_cum]. destruct (w s a).
           - intros H. injection H as <-. fold k. rewrite (agg_new_last k Hk). cbn [a_ts]. lia.
           - intros H. specialize (Hb a x H). lia. }
-        destruct (IH (clk + step) S1 Hb1) as (Hu & Hl & Hc & Ha). rewrite Hu, Hl.
-        split; [reflexivity|split; [reflexivity|split]].
+        assert (Hbd1 : forall a x, st_delta S1 a = Some x -> a_ts x <= clk + step).
+        { intros a x H. destruct (w s a) as [v|] eqn:Ew.
+          - rewrite (Hnew a v Ew) in H. injection H as <-. cbn [a_ts]. lia.
+          - unfold S1 in H. cbn [record st_delta] in H. rewrite Ew in H. specialize (Hbd a x H). lia. }
+        destruct (IH (clk + step) S1 Hb1 Hbd1) as (Hu & Hl & Hc & Hcd & Ha). rewrite Hu, Hl.
+        split; [reflexivity|split; [reflexivity|split; [|split]]].
         * intros a x H. specialize (Hc a x H). lia.
+        * intros a x H. specialize (Hcd a x H). lia.
         * intros a Hin. specialize (Ha a Hin). rewrite last_report_app, last_report_meas by exact Hin.
           destruct (last_report (reports cbs w i) a) as [v|].
           -- destruct Ha as (t & Ht & Hd). exists t. split; [lia|exact Hd].
-          -- rewrite Ha. unfold S1. cbn [record st_delta]. destruct (w s a) as [v|]; [|reflexivity].
-             exists (clk + step). split; [nia|]. fold k. rewrite (agg_new_last k Hk). f_equal.
-             destruct (st_cum S a) as [prev|] eqn:Ep; [|reflexivity].
-             rewrite (diff_last k Hk). unfold lv_later. specialize (Hb a prev Ep). cbn [a_ts].
-             destruct (a_ts prev >? clk + step) eqn:E; [lia|reflexivity].
+          -- rewrite Ha. destruct (w s a) as [v|] eqn:Ew.
+             ++ exists (clk + step). split; [nia|]. now apply Hnew.
+             ++ unfold S1. cbn [record st_delta]. now rewrite Ew.
       + cbn [app]. assert (Hb1 : forall a x, st_cum S a = Some x -> a_ts x <= clk + step) by (intros a x H; specialize (Hb a x H); lia).
-        destruct (IH (clk + step) S Hb1) as (Hu & Hl & Hc & Ha).
-        split; [exact Hu|split; [exact Hl|split]].
+        assert (Hbd1 : forall a x, st_delta S a = Some x -> a_ts x <= clk + step) by (intros a x H; specialize (Hbd a x H); lia).
+        destruct (IH (clk + step) S Hb1 Hbd1) as (Hu & Hl & Hc & Hcd & Ha).
+        split; [exact Hu|split; [exact Hl|split; [|split]]].
         * intros a x H. specialize (Hc a x H). lia.
+        * intros a x H. specialize (Hcd a x H). lia.
         * intros a Hin. specialize (Ha a Hin). destruct (last_report (reports cbs w i) a) as [v|]; [|exact Ha].
           destruct Ha as (t & Ht & Hd). exists t. split; [lia|exact Hd].
   Qed.
@@ -98,6 +115,7 @@ Section LastInstrument.
 
   Record LastInv (T : Z) (S : storage) (lat : Z -> option Z) (tch : nat -> Z -> bool) : Prop := {
     li_cum : forall a x, st_cum S a = Some x -> a_ts x <= T;
+    li_delta : forall a x, st_delta S a = Some x -> a_ts x <= T;
     li_tl : forall r a, In a attrs -> tch r a = true -> lat a <> None;
     li_none : forall r, st_unrep S r = None -> st_last S r = None;
     li_seq : forall r, (r < nreaders c)%nat -> forall a, In a attrs ->
@@ -116,8 +134,9 @@ Section LastInstrument.
 
   Lemma LastInv_time : forall T T' S lat tch, T <= T' -> LastInv T S lat tch -> LastInv T' S lat tch.
   Proof.
-    intros T T' S lat tch Hle [H1 H2 H3 H4]. constructor; try assumption.
+    intros T T' S lat tch Hle [H1 H1d H2 H3 H4]. constructor; try assumption.
     - intros a x H. specialize (H1 a x H). lia.
+    - intros a x H. specialize (H1d a x H). lia.
     - intros r Hr a Hin. destruct (H4 r Hr a Hin) as (Ha & Hb & Hc). repeat split; try assumption. now apply (bounded_weaken T).
   Qed.
 
@@ -148,11 +167,12 @@ Section LastInstrument.
     LastInv (T + step * Z.of_nat (length cbs)) (obs_i c i w cbs T step S) (lat_after rep lat) (tch_after rep tch).
   Proof.
     intros w step cbs T S lat tch Hstep HT Inv rep.
-    destruct (obs_last w step Hstep cbs T S (li_cum _ _ _ _ Inv)) as (Hu & Hl & Hc & Ha). fold rep in Ha.
+    destruct (obs_last w step Hstep cbs T S (li_cum _ _ _ _ Inv) (li_delta _ _ _ _ Inv)) as (Hu & Hl & Hc & Hcd & Ha). fold rep in Ha.
     set (S1 := obs_i c i w cbs T step S) in *. set (T1 := T + step * Z.of_nat (length cbs)) in *.
     assert (HT1 : T <= T1) by (unfold T1; nia).
     constructor.
     - exact Hc.
+    - exact Hcd.
     - intros r a Hin. unfold tch_after, lat_after. destruct (last_report rep a); cbn [is_none]; [discriminate|].
       now apply (li_tl _ _ _ _ Inv).
     - intros r. rewrite Hu, Hl. apply (li_none _ _ _ _ Inv).
@@ -176,6 +196,9 @@ Section LastInstrument.
     assert (Hlr : forall b, last_report [(a, v)] b = if a =? b then Some v else None) by reflexivity.
     constructor.
     - intros b x H. unfold S1 in H. cbn [record_sync st_cum] in H. pose proof (li_cum _ _ _ _ Inv b x H). lia.
+    - intros b x H. unfold S1 in H. cbn [record_sync st_delta] in H. unfold aset in H. destruct (b =? a).
+      + injection H as <-. unfold lv_aggregate. cbn [a_ts]. lia.
+      + pose proof (li_delta _ _ _ _ Inv b x H). lia.
     - intros r b Hin. unfold tch_after, lat_after. rewrite Hlr. destruct (a =? b); cbn [is_none]; [discriminate|].
       now apply (li_tl _ _ _ _ Inv).
     - intros r. unfold S1. cbn [record_sync st_unrep st_last]. apply (li_none _ _ _ _ Inv).
@@ -319,6 +342,7 @@ Section LastInstrument.
       split.
       + constructor.
         * apply (li_cum _ _ _ _ Inv).
+        * intros a x H. discriminate.
         * exact Htlg.
         * apply (li_none _ _ _ _ Inv).
         * intros r' Hr' a Hin. assert (r' = O).
@@ -342,6 +366,7 @@ Section LastInstrument.
       split.
       + constructor.
         * rewrite Hbc. apply (li_cum _ _ _ _ Inv).
+        * rewrite Hbd. intros a x H. discriminate.
         * exact Htlg.
         * intros r'. apply Hbn. apply (li_none _ _ _ _ Inv).
         * intros r' Hr' a Hin. destruct (li_seq _ _ _ _ Inv r' Hr' a Hin) as (Hs & Hb & Hrel). rewrite Hseq in Hs, Hb, Hrel.
